@@ -166,7 +166,7 @@ func (f *frame) mapModifiedAround(x *ssa.Next, mt types.Type) bool {
 }
 
 func (vc *VC) calleeLeavesMapsAlone(callee *ssa.Function) bool {
-	if spec := vc.Eng.Spec.Funcs[FuncName(callee)]; spec != nil && spec.HasAssign {
+	if spec := vc.calleeSpec(FuncName(callee)); spec != nil && spec.HasAssign {
 		for _, c := range spec.Assigns {
 			if strings.Contains(c.Text, "mapof(") {
 				return false
